@@ -54,7 +54,8 @@ gen("C16", """(* C16 — renaming variables is faithful substitution.  Interface
      ("C16_absent", "C16_poly_absent", "renaming an absent variable changes nothing"),
      ("C16_clash", "C16_poly_clash", "a renaming that would make a variable both input and output raises IncompatibleArgs"),
      ("C16_term", "rename_sem", "term level: coefficients are added when the new name already occurs"),
-     ("C16_code_rename_variable", "rename_variable_eq", "T1 tie: PolyhedralTerm.rename_variable as translated from polyhedra.py on this run IS the model function (on terms without a stored zero)")], extra="PyDict TermGen TermGenRename")
+     ("C16_code_rename_variable", "rename_variable_eq", "T1 tie: PolyhedralTerm.rename_variable as translated from polyhedra.py on this run IS the model function (on terms without a stored zero)"),
+     ("C16_code_rename_variables", "wrap_rename_variables_eq", "T1 tie: PolyhedralIoContract.rename_variables as translated from polyhedral_iocontract.py on this run IS the model function (a left fold of rename_variable over the mapping list, each step on the result of the previous one)")], extra="PyDict PyLoop TermGen TermGenRename WrapGen WrapGenRename")
 gen("C19", """(* C19 — equality, hashing and copying of terms, lists and contracts are coherent.  Contract equality is the T1 translation of
    IoContract.__eq__ (regenerated on every run: it compares the four fields, the OTHER contract's outputs included); term
    equality/keys from model/Term.v; hash(x) = H(key x) for an arbitrary H.  Statements only; proofs in proofs/EqFacts.v,
